@@ -198,14 +198,14 @@ func addrAddImm(a model.Addr, imm int32) model.Addr {
 	}
 }
 
-func immConst(t immType, i instruction) expr.Const {
+func immConst(t immType, i instruction, w expr.Width) expr.Const {
 	imm, ok := t.parseValue(i.value)
 	if !ok {
 		panic(fmt.Sprintf("immediate encoding %d has no value", t))
 	}
-	// Immediatealways contains at most 20 bits, so 32 bits is always
-	// enough.
-	return expr.ConstFromInt(imm)
+	// Immediate is sign extended to the width of the operation it is used
+	// in.
+	return expr.NewConstInt(imm, w)
 }
 
 func regLoad(r reg, i instruction, w expr.Width) expr.Expr {
@@ -230,7 +230,7 @@ func lessFunc(a1, a2, t, f expr.Expr, w expr.Width) expr.Expr {
 }
 
 func regImmOp(f binaryExprFunc, t immType, i instruction, w expr.Width) expr.Expr {
-	return f(regLoad(rs1, i, w), immConst(t, i), w)
+	return f(regLoad(rs1, i, w), immConst(t, i, w), w)
 }
 
 func reg2Op(f binaryExprFunc, i instruction, w expr.Width) expr.Expr {
